@@ -1,8 +1,8 @@
 package recordlayer
 
 //symgo:pkg github.com/pion/dtls/v3/pkg/protocol/recordlayer
-//symgo:param NDGRAM13 quick=20 thorough=36
-//symgo:param NCIDS quick=2 thorough=5
+//symgo:param NDGRAM13 quick=20 thorough=30
+//symgo:param NCIDS quick=2 thorough=4
 //symgo:param NMULTI quick=1 thorough=2
 //symgo:outside datagrams longer than the stated byte counts
 
